@@ -41,6 +41,8 @@ ENCODINGS = {
     "ints": (7, 3, False),
     "ints2": (2, 5, False),
     "str": ("a", "b", False),
+    "numstr": ("0", "1", False),   # numeric-looking *strings* (with a string pos_label)
+    "numstr2": ("1", "10", False),
     "bool": (False, True, True),
 }
 
